@@ -1,4 +1,4 @@
-import H5V.Lemmas.HtmlTBSkelShapeDom
+import H5V.Lemmas.HtmlTBSkelAdjOps
 /-!
 C06, second invariant layer, part 5: the invariant `ShapeAt` and its stability under queries and
 under sink calls that leave the root alone.
@@ -32,6 +32,7 @@ structure Core (s : State) (r : Id) (up : List Id) (ph : Phase) : Prop where
   elems : ElemsOk s.dom s.headElem r ph
   bh : ∀ y ∈ up.tail, htmlIn (nm s.dom y) (bhNames ph) = false
   afx : Afx s.dom s.activeFormatting r
+  adj : AdjD s.dom s.openElems
 
 /-- **the stack-shape invariant** -/
 structure ShapeAt (s : State) (r : Id) (up : List Id) (ph : Phase) : Prop where
@@ -206,12 +207,12 @@ theorem Core.transfer {s s' : State} {r : Id} {up : List Id} {ph : Phase} (h : C
     (hl : Late s') (hc : Chg s.dom s'.dom) (hrs : RS r s.dom s'.dom) (hk0 : r ∈ s'.dom.childrenOf 0)
     (hoe : s'.openElems = s.openElems) (haf : s'.activeFormatting = s.activeFormatting)
     (htm : s'.templateModes = s.templateModes) (hform : s'.formElem = s.formElem)
-    (hhead : s'.headElem = s.headElem) : Core s' r up ph := by
+    (hhead : s'.headElem = s.headElem) (hadj : AdjD s'.dom s'.openElems) : Core s' r up ph := by
   have hb := h.late.base
   have hel : ∀ x ∈ s.openElems, s.dom.isElement x = true := h.late.st.oe
   have hsn : SameNames s.dom s'.dom s.openElems := SameNames.of_chg hc hel
   refine ⟨hl, by rw [hoe]; exact h.stack, hk0, by rw [hoe]; exact h.nodup, ?_, ?_, ?_, by rw [htm]; exact h.tmm, ?_,
-    hrs.uniq h.rtu, by rw [hrs.kids]; exact h.rnd, ?_, ?_, ?_, ?_⟩
+    hrs.uniq h.rtu, by rw [hrs.kids]; exact h.rnd, ?_, ?_, ?_, ?_, hadj⟩
   · rw [hoe]; exact h.tg.congr hsn
   · intro x t hx
     rw [haf] at hx
@@ -255,8 +256,10 @@ theorem FitsM.transfer {s s' : State} {up : List Id} {ph : Phase} (hf : FitsM s 
 theorem Core.qs {s s' : State} {r : Id} {up : List Id} {ph : Phase} (h : Core s r up ph) (q : QS s s') :
     Core s' r up ph := by
   have hr := q.rest
+  have hoe : s'.openElems = s.openElems := by rw [hr]
   refine h.transfer (h.late.same q.same3) (SameSk.of_nodes q.nodes).chg (RS.of_nodes q.nodes)
-    (by rw [childrenOf_of_nodes q.nodes]; exact h.rdoc) ?_ ?_ ?_ ?_ ?_ <;> rw [hr]
+    (by rw [childrenOf_of_nodes q.nodes]; exact h.rdoc) ?_ ?_ ?_ ?_ ?_
+    (by rw [hoe]; exact h.adj.of_nodes q.nodes) <;> rw [hr]
 
 theorem ShapeAt.qs {s s' : State} {r : Id} {up : List Id} {ph : Phase} (h : ShapeAt s r up ph) (q : QS s s') :
     ShapeAt s' r up ph := by
